@@ -254,6 +254,37 @@ pub fn drive(args: &HashMap<String, String>) {
                 }
             }
         }
+        // change of variables with *data that looks like code*: (a (q . S) ARGS) where ARGS conses quoted constants whose
+        // content reads as quote forms, first/rest-of-cons, applies, paths.  After substitution the optimiser holds
+        // (q . DATA) forms among the operands and must leave every one of them alone
+        {
+            let a = |b: u8| V::A(vec![b]);
+            let q = |x: V| V::cons(V::A(vec![1]), x);
+            let bodies = vec![a(2), a(5), V::list(&[a(4), a(2), a(5)]), V::list(&[a(5), a(2)]), V::list(&[a(4), a(2), q(V::int(7))]), V::list(&[a(7), a(2)]),
+                V::list(&[a(4), a(5), a(2)]), V::list(&[a(6), a(2)])];
+            let data = vec![
+                V::list(&[a(1)]), V::list(&[V::list(&[a(1)])]), V::list(&[a(1), a(2), a(3)]), V::cons(a(1), a(5)),
+                V::list(&[a(5), V::list(&[a(4), a(1), a(2)])]), V::list(&[a(6), a(1)]), V::list(&[a(2), V::cons(a(1), a(5)), a(1)]),
+                V::list(&[a(1), V::list(&[a(1)])]), V::list(&[V::list(&[a(5), a(1)])]), V::list(&[a(4), V::cons(a(1), a(1)), V::cons(a(1), a(2))]),
+                V::list(&[a(3), V::nil(), a(1), a(2)]), V::list(&[V::list(&[a(1), a(2), a(3)]), V::list(&[a(5), a(1)])]),
+                V::list(&[V::list(&[a(6), a(3)]), V::list(&[a(5), a(7)])]), V::list(&[a(2), a(2), a(1)]),
+            ];
+            for body in &bodies {
+                for (i, d) in data.iter().enumerate() {
+                    let d2 = &data[(i + 5) % data.len()];
+                    let argss = vec![
+                        V::list(&[a(4), q(d.clone()), a(1)]),
+                        V::list(&[a(4), q(d.clone()), V::list(&[a(4), q(d2.clone()), V::nil()])]),
+                        V::list(&[a(4), q(d.clone()), q(V::int(7))]),
+                        V::list(&[a(4), V::list(&[a(4), q(d.clone()), a(2)]), q(d2.clone())]),
+                    ];
+                    for args in argss {
+                        let prog = V::list(&[a(2), q(body.clone()), args]);
+                        cases.push(json!({"prog": prog.to_json(), "env": g.list_env(4).to_json()}));
+                    }
+                }
+            }
+        }
         // variadic operators with 1 .. 70 arguments (argument references are built by position)
         for nargs in [1usize, 2, 7, 31, 32, 33, 61, 62, 63, 64, 65, 70] {
             for (op, last) in [(16u8, V::int(3)), (14, V::A(vec![7])), (34, V::nil()), (33, V::int(1)), (24, V::int(5)), (11, V::A(vec![9]))] {
